@@ -221,3 +221,14 @@ func c12r4(c *Ctx) {
 		c.Anchor(rule, "a writer of the builder's function or elements")
 	}
 }
+
+func init() {
+	properties["C12"].Rules = append(properties["C12"].Rules, c12r5)
+}
+
+// c12r5: "parsing the string produced by … the built-in functions' own message encoder yields the same function and
+// arguments": every data string the built-in functions emit has the shape the call-arguments parser inverts — the head
+// followed by one separator and one hex-encoded argument per argument, nothing trimmed afterwards (shared with C10-R1).
+func c12r5(c *Ctx) {
+	c.shareRule(c10r1, "C10-R1", "C12-R5", "every data string emitted by the built-in functions' own encoder has the shape Head(\"@\" hex)* that the parser inverts", nil)
+}
